@@ -1,0 +1,35 @@
+//go:build verif
+
+package packet
+
+import (
+	"crypto/sha1"
+	"io"
+)
+
+// Hooks for the /verif harness (property C44): the framing / integrity plumbing without a cipher around it.
+
+// VerifSerializeHeader calls serializeHeader.
+func VerifSerializeHeader(w io.Writer, tag uint8, length int) error {
+	return serializeHeader(w, packetType(tag), length)
+}
+
+// VerifPartialLengthWriter returns a partialLengthWriter over w (what serializeStreamHeader returns, without the tag byte).
+func VerifPartialLengthWriter(w io.WriteCloser) io.WriteCloser {
+	return &partialLengthWriter{w: w}
+}
+
+// VerifMDCReader returns the seMDCReader Decrypt builds, reading plaintext from in, with the running
+// SHA-1 primed with the OCFB prefix.
+func VerifMDCReader(in io.Reader, prefix []byte) io.ReadCloser {
+	h := sha1.New()
+	h.Write(prefix)
+	return &seMDCReader{in: in, h: h}
+}
+
+// VerifMDCWriter returns the seMDCWriter SerializeSymmetricallyEncrypted builds over w.
+func VerifMDCWriter(w io.WriteCloser, prefix []byte) io.WriteCloser {
+	h := sha1.New()
+	h.Write(prefix)
+	return &seMDCWriter{w: w, h: h}
+}
